@@ -136,13 +136,14 @@ def template_axis_names(items):
 
 
 class Leaf(Node):
-    __slots__ = ("name", "bracket", "tname", "isnum")
+    __slots__ = ("name", "bracket", "tname", "isnum", "eg")
 
-    def __init__(self, name, bracket, tname=None, isnum=False):
+    def __init__(self, name, bracket, tname=None, isnum=False, eg=None):
         self.name = name  # expanded name, e.g. "s.0"
         self.bracket = bracket
         self.tname = tname or name  # template name, e.g. "s"
         self.isnum = isnum
+        self.eg = eg  # elementary-dimension group: bracketed leaves inside one parenthesised group under a bracket share it
 
 
 class XFlat(Node):
@@ -162,32 +163,56 @@ class XCat(Node):
 ANON = "_anon"
 
 
-def expand(items, reps, suffix="", bracket=False):
-    """Template list -> expanded list (ellipses written out, brackets turned into leaf flags)."""
+_eg_counter = itertools.count(1)
+
+
+def expand(items, reps, suffix="", bracket=False, eg=None):
+    """Template list -> expanded list (ellipses written out, brackets turned into leaf flags).
+    A parenthesised group that sits *inside* a bracket is one dimension of the elementary operation:
+    its leaves share an elementary-group id (`eg`)."""
     out = []
     for n in items:
         if isinstance(n, Ax):
-            out.append(Leaf(n.name + suffix, bracket, n.name))
+            out.append(Leaf(n.name + suffix, bracket, n.name, eg=eg))
         elif isinstance(n, Num):
-            out.append(Leaf(n.uid + suffix, bracket, n.uid, isnum=True))
+            out.append(Leaf(n.uid + suffix, bracket, n.uid, isnum=True, eg=eg))
         elif isinstance(n, Flat):
-            out.append(XFlat(expand(n.items, reps, suffix, bracket)))
+            g = eg
+            if bracket and g is None:
+                g = next(_eg_counter)
+            out.append(XFlat(expand(n.items, reps, suffix, bracket, g)))
         elif isinstance(n, Cat):
             ch = []
             for c in n.items:
-                e = expand([c], reps, suffix, bracket)
+                e = expand([c], reps, suffix, bracket, eg)
                 assert len(e) == 1
                 ch.append(e[0])
             out.append(XCat(ch))
         elif isinstance(n, Br):
-            out.extend(expand(n.items, reps, suffix, True))
+            out.extend(expand(n.items, reps, suffix, True, eg))
         elif isinstance(n, Ell):
             body = [Ax(ANON)] if n.anon else n.items
             for i in range(reps[n.group]):
-                out.extend(expand(body, reps, f"{suffix}.{i}", bracket))
+                out.extend(expand(body, reps, f"{suffix}.{i}", bracket, eg))
         else:
             raise TypeError(n)
     return out
+
+
+def elementary_dims(xitems, sizes):
+    """Sizes of the dimensions of the elementary operation's sub-tensor (bracketed leaves; leaves of one
+    parenthesised group under a bracket form one dimension)."""
+    dims = []
+    last = object()
+    for l in xleaves(xitems):
+        if not l.bracket:
+            continue
+        if l.eg is not None and l.eg == last:
+            dims[-1] *= sizes[l.name]
+        else:
+            dims.append(sizes[l.name])
+        last = l.eg if l.eg is not None else object()
+    return dims
 
 
 def xleaves(items):
